@@ -26,6 +26,7 @@ type GenOpts struct {
 	StartNs   int64
 	EndNs     int64
 	StepAlign int64 // place timestamps around multiples of this (bucket edges)
+	Malformed bool  // some lines are cut after a readable prefix / are not objects (json), have an unterminated quote (logfmt)
 }
 
 func hv(r *rand.Rand, base string, hostile bool) string {
@@ -73,6 +74,15 @@ func NewDB(r *rand.Rand, o GenOpts) *DB {
 			s.Type = 0
 		}
 		d.Series = append(d.Series, s)
+		if s.Type != 2 && r.Intn(4) == 0 {
+			// the same label set also ingested as a metric: the fingerprint is a hash of the labels, so the index has
+			// a second row (fp, type 2) and the samples table holds metric points under the very same fingerprint
+			tw := Series{FP: s.FP, Labels: map[string]string{}, Type: 2}
+			for k, v := range s.Labels {
+				tw.Labels[k] = v
+			}
+			d.Series = append(d.Series, tw)
+		}
 	}
 	span := o.EndNs - o.StartNs
 	for _, s := range d.Series {
@@ -100,6 +110,9 @@ func NewDB(r *rand.Rand, o GenOpts) *DB {
 			}
 			sm := Sample{FP: s.FP, Ts: ts, Type: s.Type}
 			sm.Line = genLine(r, o, j)
+			if s.Type == 2 && r.Intn(2) == 0 {
+				sm.Line, sm.Value = "", float64(r.Intn(200))/4 // what a metric sample looks like
+			}
 			if o.Numeric {
 				sm.Value = float64(r.Intn(200)) / 4
 			}
@@ -109,21 +122,42 @@ func NewDB(r *rand.Rand, o GenOpts) *DB {
 	return d
 }
 
+// nVal is the numeric field of a line: small integers, zero often enough that whole buckets sum to 0
+func nVal(r *rand.Rand) int {
+	if r.Intn(4) == 0 {
+		return 0
+	}
+	return r.Intn(20)
+}
+
 func genLine(r *rand.Rand, o GenOpts, j int) string {
+	if o.Malformed && r.Intn(4) == 0 {
+		lv := []string{"err", "info", "dbg"}[r.Intn(3)]
+		switch {
+		case o.JSONLines:
+			return []string{
+				`{"lvl2":"` + lv + `","n":` + fmt.Sprint(r.Intn(20)) + `,"msg":"cut of`,
+				`{"lvl2":"` + lv + `","nested":{"a":{"b":"deep`,
+				`[1,"two"]`, `"just a string"`, `{"lvl2":"` + lv + `"} trailing`,
+			}[r.Intn(5)]
+		case o.Logfmt:
+			return fmt.Sprintf(`lvl2=%s n=%d msg="never closed`, lv, r.Intn(20))
+		}
+	}
 	switch {
 	case o.JSONLines:
 		switch r.Intn(10) {
 		case 0:
-			return `{"msg":"plain","n":` + fmt.Sprint(r.Intn(20)) + `}`
+			return `{"msg":"plain","n":` + fmt.Sprint(nVal(r)) + `}`
 		case 1:
-			return `{"msg":` + Q(tokens[r.Intn(len(tokens))]) + `,"lvl2":"` + []string{"err", "info"}[r.Intn(2)] + `","n":` + fmt.Sprint(r.Intn(20)) + `,"nested":{"a":{"b":"deep` + fmt.Sprint(r.Intn(3)) + `"},"arr":[1,"two",{"k":"v` + fmt.Sprint(r.Intn(3)) + `"}]}}`
+			return `{"msg":` + Q(tokens[r.Intn(len(tokens))]) + `,"lvl2":"` + []string{"err", "info"}[r.Intn(2)] + `","n":` + fmt.Sprint(nVal(r)) + `,"nested":{"a":{"b":"deep` + fmt.Sprint(r.Intn(3)) + `"},"arr":[1,"two",{"k":"v` + fmt.Sprint(r.Intn(3)) + `"}]}}`
 		case 2:
 			return `{"msg":"x","flag":true,"ratio":2.5,"nested":{"a":{"b":"deep0"}}}`
 		default:
-			return `{"msg":` + Q(tokens[r.Intn(len(tokens))]+" "+tokens[r.Intn(len(tokens))]) + `,"lvl2":"` + []string{"err", "info", "dbg"}[r.Intn(3)] + `","n":` + fmt.Sprint(r.Intn(20)) + `,"nested":{"a":{"b":"deep` + fmt.Sprint(r.Intn(3)) + `"},"arr":[1,"two",{"k":"v1"}]},"user id":"u` + fmt.Sprint(r.Intn(3)) + `"}`
+			return `{"msg":` + Q(tokens[r.Intn(len(tokens))]+" "+tokens[r.Intn(len(tokens))]) + `,"lvl2":"` + []string{"err", "info", "dbg"}[r.Intn(3)] + `","n":` + fmt.Sprint(nVal(r)) + `,"nested":{"a":{"b":"deep` + fmt.Sprint(r.Intn(3)) + `"},"arr":[1,"two",{"k":"v1"}]},"user id":"u` + fmt.Sprint(r.Intn(3)) + `"}`
 		}
 	case o.Logfmt:
-		return fmt.Sprintf(`lvl2=%s n=%d msg="%s" path=/a/b`, []string{"err", "info", "dbg"}[r.Intn(3)], r.Intn(20), strings.ReplaceAll(tokens[r.Intn(12)], `"`, ``))
+		return fmt.Sprintf(`lvl2=%s n=%d msg="%s" path=/a/b`, []string{"err", "info", "dbg"}[r.Intn(3)], nVal(r), strings.ReplaceAll(tokens[r.Intn(12)], `"`, ``))
 	}
 	n := 1 + r.Intn(4)
 	parts := make([]string, n)
@@ -186,6 +220,10 @@ func genLineFilter(r *rand.Rand, hostile bool) Stage {
 		tok = hostileTails[r.Intn(len(hostileTails))]
 	}
 	s := Stage{Kind: "line", Op: op, Val: tok, Ticked: r.Intn(4) == 0}
+	if r.Intn(12) == 0 && (op == "|=" || op == "|~") {
+		s.Val = "" // the empty filter query builders emit: keeps every line
+		return s
+	}
 	if op == "|~" || op == "!~" {
 		switch r.Intn(4) {
 		case 0:
@@ -247,6 +285,11 @@ func GenLogQuery(r *rand.Rand, d *DB, o GenOpts) *LogQuery {
 	}
 	var extracted []string
 	n := r.Intn(4)
+	if r.Intn(10) == 0 {
+		// Grafana's builder: an empty line filter first, the real stages after it
+		q.Stages = append(q.Stages, Stage{Kind: "line", Op: "|=", Val: ""})
+		n = 1 + r.Intn(3)
+	}
 	for i := 0; i < n; i++ {
 		switch k := r.Intn(10); {
 		case k <= 2:
@@ -296,6 +339,11 @@ func GenMetricQuery(r *rand.Rand, d *DB, o GenOpts, rng time.Duration) *MetricQu
 	// pipeline stages that must take effect whatever the range
 	n := r.Intn(3)
 	var extracted []string
+	if r.Intn(6) == 0 {
+		// the empty line filter query builders put first; the stages after it must still take effect
+		m.Log.Stages = append(m.Log.Stages, Stage{Kind: "line", Op: "|=", Val: ""})
+		n = 1 + r.Intn(2)
+	}
 	for i := 0; i < n; i++ {
 		switch r.Intn(4) {
 		case 0:
